@@ -28,6 +28,12 @@ structure Group where
   reg : Nat := 0
   cap : Nat := 64
   mode : String := "-"
+  -- registry scripts (`rx` lines): the registry as C18's model, connections ever opened, keys ever
+  -- used, `alias` calls still in flight (they take effect after their peer's `remove`)
+  rx : Peers.State := {}
+  rxConns : List Nat := []
+  rxKeys : List String := []
+  rxLate : List (Nat × String) := []
 
 def Group.hasParent (g : Group) : Bool := g.entry == "drain" || g.entry == "conncancel" || g.entry == "adopt"
 
@@ -163,8 +169,62 @@ def showWire (g : Group) (log : List Frame) (got : Nat) : String :=
 
 def parseNotif (s : String) : List Nat := if s == "-" then [] else (s.splitOn ",").map natOf
 
+/-! ### registry scripts: several connections sharing and re-pointing aliases
+
+```
+rx <idx> reset <entry>                    (no observation)
+rx <idx> open <c> <k1,k2,…|->             connect hook of connection c (peer id c): insert, then alias each key
+rx <idx> alias <c> <inline|off> <key>     a handler of c calls registry.alias(c, key)
+rx <idx> late <c> <key>                   an off-reader handler of c starts alias(c, key); the call is in flight
+rx <idx> close <c> <cause>                c ends: remove(c) (disconnect hook), then the in-flight alias (if any) completes
+  -> <idx> ret=<alias results|-> by=<key>:<owner|->,… peers=<c>:<present>:<aliases_for joined by +|->:<key_for|->,…
+```
+Every `PeerRegistry` method is one critical section (C18), so the script is a sequential history of C18's model. -/
+
+def insSorted [Ord α] (x : α) (l : List α) : List α :=
+  if l.any (fun y => compare x y == .eq) then l else
+  (l.filter (fun y => compare y x == .lt)) ++ [x] ++ (l.filter (fun y => compare y x == .gt))
+
+def rxDump (g : Group) : String :=
+  let by_ := g.rxKeys.map (fun k => k ++ ":" ++ match Peers.getBy g.rx k with | some h => toString h.id | none => "-")
+  let ps := g.rxConns.map (fun c =>
+    let al := Peers.aliasesFor g.rx c
+    s!"{c}:{if (Peers.get g.rx c).isSome then 1 else 0}:{if al.isEmpty then "-" else "+".intercalate al}:{(Peers.keyFor g.rx c).getD "-"}")
+  s!"by={if by_.isEmpty then "-" else ",".intercalate by_} peers={if ps.isEmpty then "-" else ",".intercalate ps}"
+
+def rxAlias (g : Group) (c : Nat) (k : String) : Group × Bool :=
+  let r := Peers.alias g.rx c k
+  ({ g with rx := r.1, rxKeys := insSorted k g.rxKeys }, r.2)
+
+def bits (l : List Bool) : String := if l.isEmpty then "-" else String.join (l.map fun b => if b then "1" else "0")
+
+def rxStep (g : Group) (idx : String) : List String → Group × String
+  | ["reset", _entry] => ({ g with rx := {}, rxConns := [], rxKeys := [], rxLate := [] }, "")
+  | ["open", c, keys] =>
+    let c := natOf c
+    let g := { g with rx := Peers.insert g.rx c c, rxConns := insSorted c g.rxConns }
+    let ks := if keys == "-" then [] else keys.splitOn ","
+    let (g, rets) := ks.foldl (fun (acc : Group × List Bool) k => let r := rxAlias acc.1 c k; (r.1, acc.2 ++ [r.2])) (g, [])
+    (g, s!"{idx} ret={bits rets} {rxDump g}")
+  | ["alias", c, how, k] =>
+    if how != "inline" && how != "off" then (g, idx ++ " bad-op") else
+    let (g, r) := rxAlias g (natOf c) k
+    (g, s!"{idx} ret={bits [r]} {rxDump g}")
+  | ["late", c, k] =>
+    let g := { g with rxLate := g.rxLate ++ [(natOf c, k)], rxKeys := insSorted k g.rxKeys }
+    (g, s!"{idx} ret=- {rxDump g}")
+  | ["close", c, _cause] =>
+    let c := natOf c
+    let g := { g with rx := (Peers.remove g.rx c).1 }
+    let mine := g.rxLate.filter (fun e => e.1 == c)
+    let (g, rets) := mine.foldl (fun (acc : Group × List Bool) e => let r := rxAlias acc.1 c e.2; (r.1, acc.2 ++ [r.2])) (g, [])
+    let g := { g with rxLate := g.rxLate.filter (fun e => e.1 != c) }
+    (g, s!"{idx} ret={bits rets} {rxDump g}")
+  | _ => (g, idx ++ " bad-op")
+
 def step (g : Group) (ws : List String) : Group × String :=
   match ws with
+  | "rx" :: idx :: rest => rxStep g idx rest
   | ["group", _, entry, nconn, nctx, ndisc, reg, cap, mode, _nctxRegistered] =>
     ({ entry, nconn := natOf nconn, nctx := natOf nctx, ndisc := natOf ndisc, reg := natOf reg, cap := natOf cap, mode }, "")
   | ["scen", idx, phase, cause, notif, at_, nreq, got] =>
